@@ -349,6 +349,33 @@ def lookupAll (t : Trie) (key : List Nat) (st : Strategy) : List Phrase :=
   | none => []
   | some th => collect t.index t.data th []
 
+/-- "collect result from all threads" with the cut-off of `lookup_first_n_phrases`: after a leaf has
+    been appended, `if result.len() > first { break }` — whole leaves, no truncation -/
+def collectN (dict data : Bytes) (first : Nat) : List Rec → List Phrase → List Phrase
+  | [], acc => acc
+  | v :: vs, acc =>
+    if oob (cbOf v) (ceOf v) dict.length then [] else
+    if oob 0 8 (dict.length - cbOf v) then [] else
+    let leaf := viewAt dict (cbOf v)
+    if leaf.2.2 ≠ 0 then collectN dict data first vs acc else
+    if oob leaf.1 (leaf.1 + leaf.2.1) data.length then [] else
+    let acc' := acc ++ decPhrases (dataSlice data leaf)
+    if acc'.length > first then acc' else collectN dict data first vs acc'
+
+/-- `lookup_first_n_phrases` (the trait's required method; `lookupAll` is the case `first = usize::MAX`,
+    where the cut-off cannot fire) -/
+def lookupFirstN (t : Trie) (key : List Nat) (first : Nat) (st : Strategy) : List Phrase :=
+  if oob 0 8 t.index.length then [] else
+  let root := viewAt t.index 0
+  if cbOf root = ceOf root then [] else
+  match walk t.index st key [root] with
+  | none => []
+  | some th => collectN t.index t.data first th []
+
+/-- `lookup_first_phrase` (provided method): `lookup_first_n_phrases(…, 1, …).into_iter().next()` -/
+def lookupFirst (t : Trie) (key : List Nat) (st : Strategy) : Option Phrase :=
+  (lookupFirstN t key 1 st).head?
+
 /-! ### entries() -/
 
 /-- an element of `results`: key (syllable codes) and the decoded leaf -/
